@@ -51,7 +51,9 @@ KeyU(k) == CHOOSE u \in Subs : \E g \in RGs : k = Key(u, g)
 KeyG(k) == CHOOSE g \in RGs : \E u \in Subs : k = Key(u, g)
 Supi(u) == "imsi-" \o u
 
-TrigSeq(t) == CASE t = "none" -> <<>> [] t = "final" -> <<"final">> [] t = "partial" -> <<"volume">>
+\* ("rare": one of the trigger types an SMF reports less often -- a change of location, access, QoS ...; for the CHF a trigger
+\* other than FINAL like any other: the record is closed as a partial record)
+TrigSeq(t) == CASE t = "none" -> <<>> [] t = "final" -> <<"final">> [] t = "partial" -> <<"volume">> [] t = "rare" -> <<"rare">>
                 [] t = "final_then_partial" -> <<"final", "volume">> [] OTHER -> <<>>
 
 Entries ==
